@@ -53,14 +53,28 @@ func ckksBinKinds() []Kind {
 	c := func(v interface{}) func(*Env, *Gen) interface{} { return func(*Env, *Gen) interface{} { return v } }
 	slots := func(e *Env) int { return e.CKKS.MaxSlots() }
 	return []Kind{
+		// ciphertext x ciphertext: every (degree of op0, degree of op1) in {1,2}^2 crossed with equal / smaller /
+		// larger scale of op0 (evaluateInPlace has one branch per (aliasing, scale order)), the level relation
+		// varying along the list; each kind is then crossed with every aliasing pattern
 		mk("ct1-ct1", "ct-ct", 1, 0, 0, ctOp(1, 0, 0)),
 		mk("ct1-ct1/scale<", "ct-ct/scale", 1, 0, 1, ctOp(1, 0, 3)),
 		mk("ct1-ct1/scale>", "ct-ct/scale", 1, 0, 6, ctOp(1, -1, 2)),
 		mk("ct1-ct1/level", "ct-ct", 1, -1, 0, ctOp(1, 0, 0)),
-		mk("ct1-ct2/scale<", "ct-ct/degree", 1, 0, 1, ctOp(2, 0, 5)),
-		mk("ct2-ct1/scale>", "ct-ct/degree", 2, 0, 4, ctOp(1, 0, 1)),
+		mk("ct1-ct2", "ct-ct/degree", 1, -1, 0, ctOp(2, 0, 0)),
+		mk("ct1-ct2/scale<", "ct-ct/degree+scale", 1, 0, 1, ctOp(2, 0, 5)),
+		mk("ct1-ct2/scale>", "ct-ct/degree+scale", 1, 0, 6, ctOp(2, -1, 3)),
+		mk("ct2-ct1", "ct-ct/degree", 2, 0, 0, ctOp(1, -1, 0)),
+		mk("ct2-ct1/scale<", "ct-ct/degree+scale", 2, -1, 1, ctOp(1, 0, 3)),
+		mk("ct2-ct1/scale>", "ct-ct/degree+scale", 2, 0, 4, ctOp(1, 0, 1)),
+		mk("ct2-ct2", "ct-ct/degree2", 2, 0, 0, ctOp(2, 0, 0)),
+		mk("ct2-ct2/scale<", "ct-ct/degree2+scale", 2, 0, 1, ctOp(2, -1, 3)),
+		mk("ct2-ct2/scale>", "ct-ct/degree2+scale", 2, -1, 6, ctOp(2, 0, 2)),
+		// ciphertext x plaintext (degree 0): degrees 1 and 2 crossed with equal / smaller / larger scale
 		mk("ct1-pt", "ct-pt", 1, 0, 0, ptOp(0, 0)),
 		mk("ct1-pt/scale<", "ct-pt/scale", 1, 0, 1, ptOp(-1, 3)),
+		mk("ct1-pt/scale>", "ct-pt/scale", 1, -1, 6, ptOp(0, 2)),
+		mk("ct2-pt", "ct-pt", 2, -1, 0, ptOp(0, 0)),
+		mk("ct2-pt/scale<", "ct-pt/scale", 2, 0, 1, ptOp(0, 3)),
 		mk("ct2-pt/scale>", "ct-pt/scale", 2, -1, 6, ptOp(0, 2)),
 		mk("ct1-complex128", "complex128", 1, 0, 0, c(complex(1.5, -2.25))),
 		mk("ct2-complex128/int", "complex128", 2, -1, 3, c(complex(3, -2))),
